@@ -16,7 +16,7 @@ ASSUMPTIONS = [
     "ties of the majority policy: any time step of maximal multiplicity is accepted",
     "centre frequencies strictly above (by >= 1e-6 relative) or at/below a Nyquist frequency; the knife edge is not generated",
 ]
-BUDGET = {"quick": 640, "thorough": 16000}
+BUDGET = {"quick": 800, "thorough": 20000}
 SHARDS = {"quick": 8, "thorough": 16}
 TECHNIQUE = "property-based differential testing: joint vs. alone vs. permuted vs. sub-list, bit-exact; policy model"
 
@@ -30,13 +30,21 @@ def strategy(draw):
         # nearly equal time steps (clock drift, header rounding): still distinct, must not be merged
         dts[1] = dts[0] * (1 + draw(st.sampled_from([1e-6, 1e-4, -1e-5, 2.2e-8])))
     pattern = [draw(st.integers(0, ndt - 1)) for _ in range(nrec)]
+    if ndt >= 2 and nrec >= 4 and draw(st.booleans()):
+        # arrangements whose regrouping permutation is not its own inverse (a,b,b,a / a,b,a,a ...)
+        pattern[:4] = draw(st.sampled_from([[0, 1, 1, 0], [0, 1, 0, 0], [1, 0, 0, 1], [0, 1, 1, 1][::-1], [0, 0, 1, 0][::-1]]))
     exp = draw(st.integers(-6, 6))
     recs = []
     for i in range(nrec):
         n = draw(st.integers(16, 400))
         recs.append(draw(gen.recording_recipe(n=n, dt=dts[pattern[i]], scale_exp=(exp, exp), dfn_range=(0, 0),
                                               kinds=("noise", "sines", "chirp", "spikes", "raw"))))
-    spec = draw(gen.processing_spec(n_max=400, fft_choices=(2 ** 15, 2 ** 15, 2 ** 16)))
+    # choose the code path first (5 paths), then the name, so that every path gets a fair share
+    path = draw(gen.choice(["fd", "single_azimuth", "rotdpp", "azimuthal", "fd", "single_azimuth", "azimuthal", "diffuse_field"]))
+    methods = gen.FD_METHODS if path == "fd" else [path]
+    policy = draw(gen.choice(["frequency_domain_resampling", "frequency_domain_resampling", "keeping_smallest_time_step",
+                              "keeping_majority_time_step"]))
+    spec = draw(gen.processing_spec(n_max=400, methods=methods, policy=policy, fft_choices=(2 ** 15, 2 ** 15, 2 ** 16)))
     used = sorted(set(r["dt"] for r in recs))
     nfft = spec["_nfft"]
     df_max = 1.0 / (nfft * min(used))
@@ -46,7 +54,7 @@ def strategy(draw):
         spec["op"], spec["bw"] = "konno_and_ohmachi", 40.0
         fcs = draw(gen.center_frequencies(spec["op"], spec["bw"], df_max, fnyq_min, max_size=12))
     above = None
-    if len(used) > 1 and draw(gen.chance(4)):
+    if len(used) > 1 and draw(gen.chance(6)):
         # one centre frequency between two Nyquist frequencies (or above all of them)
         nyqs = sorted(0.5 / d for d in used)
         j = draw(st.integers(0, len(nyqs) - 1))
